@@ -41,6 +41,10 @@ THEOREMS = [_P + n for n in [
     "many_terminates", "many_needs_consuming",
     "run_total", "run_steps_bound", "run_steps_polynomial", "run_outcome_not_internal", "run_cursor_in_range",
     "run_outcome_needs_wf", "parse_top_outcome",
+    "match_text_seq_restores", "match_text_seq_peek_still",
+    "table_loop_terminates", "table_loop_needs_progress", "table_loop_peek_needs_consuming",
+    "wrapped_id_vars_terminates", "wrapped_csv_wf", "command_fallback_consumes_chunk", "statement_command_fallback",
+    "parse_batch_terminates", "Scan.lex_progress", "Scan.forward_only_disciplined",
     "Scan.scan_progress", "Scan.scan_iterations_linear", "Scan.suffix_rewind_disciplined", "Scan.heredoc_rewind_disciplined",
     "Scan.rewind_needs_discipline",
     "Scan.tokenizer_rewind_sites_known", "Scan.tokenizer_guarded_sites_guarded", "Scan.tokenizer_current_writes_known",
@@ -268,6 +272,18 @@ def all_dialects():
     return list(load_dialects())
 
 
+DISPATCH_TABLES = ["RANGE_PARSERS", "COLUMN_OPERATORS", "QUERY_MODIFIER_PARSERS", "STATEMENT_PARSERS", "FUNCTION_PARSERS",
+                   "NO_PAREN_FUNCTION_PARSERS", "PROPERTY_PARSERS", "CONSTRAINT_PARSERS", "ALTER_PARSERS", "ALTER_ALTER_PARSERS",
+                   "UNARY_PARSERS", "PRIMARY_PARSERS", "STRING_PARSERS", "NUMERIC_PARSERS", "PLACEHOLDER_PARSERS",
+                   "PIPE_SYNTAX_TRANSFORM_PARSERS", "SET_PARSERS", "SHOW_PARSERS", "ANALYZE_EXPRESSION_PARSERS", "TYPE_LITERAL_PARSERS"]
+PEEKED_TABLES = {"QUERY_MODIFIER_PARSERS"}   # the caller only peeks at the key (`_match_set(…, advance=False)`)
+# tables and token sets whose keys drive a `while` loop of the parser (continuation depends on the entry's result)
+LOOP_TABLES = ["RANGE_PARSERS", "COLUMN_OPERATORS", "QUERY_MODIFIER_PARSERS", "UNARY_PARSERS", "NO_PAREN_FUNCTION_PARSERS",
+               "PLACEHOLDER_PARSERS", "PIPE_SYNTAX_TRANSFORM_PARSERS"]
+LOOP_TOKEN_SETS = ["JOIN_KINDS", "JOIN_SIDES", "JOIN_METHODS", "SET_OPERATIONS", "TABLE_INDEX_HINT_TOKENS", "CONJUNCTION", "DISJUNCTION",
+                   "EQUALITY", "COMPARISON", "BITWISE", "TERM", "FACTOR", "EXPONENT", "ASSIGNMENT"]
+
+
 class StepBudget(BaseException):
     """raised by the harness' own counter (never by sqlglot) when a step budget is exhausted"""
 
@@ -289,6 +305,8 @@ class Monitor:
         self.g_cap = None
         self.w_units = 0          # parser "work": _match/_match_set/expression/raise_error activations
         self.w_cap = None
+        self.table_breaches = []  # dispatch-table entries that returned a truthy result without progress
+        self.table_calls = 0
         self.acts = None          # list of activation records when recording
         self.stack = []
         self.ttrace = None        # tokenizer trace when recording
@@ -418,6 +436,8 @@ class Monitor:
         def _parse_wrapped(self, parse_method, optional=False):
             return activation("wrapped", lambda m: o_wr(self, m, optional), self, parse_method, {"optional": bool(optional)})
 
+        self.wrapped_tables = []
+        self._wrap_tables(P)
         P._advance = _advance
         P._match = work(self.orig["match"])
         P._match_set = work(self.orig["match_set"])
@@ -433,9 +453,66 @@ class Monitor:
         self.acts_cap = 4000
         self._tokens_by_id = {}
 
+    def _wrap_tables(self, P):
+        """wrap every entry of every parser dispatch table (of the base parser and of every dialect's parser class) in place:
+        a truthy result must not leave the cursor before the point the entry started from (the key token is consumed by
+        the caller), and for tables whose key is only peeked the cursor must have moved forward.  Those are the per-entry
+        hypotheses of `table_loop_terminates`."""
+        *_, Dialect, Dialects = sg()
+        mon = self
+        classes = [P]
+        for d in list(_USABLE) or [x.value for x in Dialects]:
+            try:
+                pc = Dialect.get_or_raise(d or None).parser_class
+            except Exception:  # noqa
+                continue
+            for c in pc.__mro__:
+                if isinstance(c, type) and issubclass(c, P) and c not in classes:
+                    classes.append(c)
+        seen = set()
+
+        def mk(table, key, fn):
+            peeked = table in PEEKED_TABLES
+            pair = table == "QUERY_MODIFIER_PARSERS"
+
+            def w(psr, *a, **kw):
+                if not isinstance(psr, P):
+                    return fn(psr, *a, **kw)
+                mon.w_units += 1
+                mon.table_calls += 1
+                if mon.w_cap is not None and mon.w_units > mon.w_cap:
+                    raise StepBudget("parser-work")
+                i0 = psr._index
+                r = fn(psr, *a, **kw)
+                v = r[1] if pair and isinstance(r, tuple) and len(r) == 2 else r
+                try:
+                    truthy = bool(v)
+                except Exception:  # noqa
+                    truthy = True
+                i1 = psr._index
+                if truthy and (i1 < i0 or (peeked and i1 == i0)) and len(mon.table_breaches) < 50:
+                    mon.table_breaches.append({"table": table, "key": getattr(key, "name", str(key)), "parser": type(psr).__name__,
+                                               "index_before": i0, "index_after": i1})
+                return r
+            return w
+
+        for c in classes:
+            for table in DISPATCH_TABLES:
+                dct = c.__dict__.get(table)
+                if not isinstance(dct, dict) or id(dct) in seen:
+                    continue
+                seen.add(id(dct))
+                for k, fn in list(dct.items()):
+                    if callable(fn):
+                        self.wrapped_tables.append((dct, k, fn))
+                        dct[k] = mk(table, k, fn)
+
     def remove(self):
         if not self.installed:
             return
+        for dct, k, fn in self.wrapped_tables:
+            dct[k] = fn
+        self.wrapped_tables = []
         _, _, parser, _, _, generator, tc, *_ = sg()
         parser.Parser._advance = self.orig["adv"]
         parser.Parser._match = self.orig["match"]
@@ -453,6 +530,7 @@ class Monitor:
     def reset(self):
         self.p_steps = self.t_steps = self.g_calls = self.w_units = 0
         self.p_cap = self.t_cap = self.g_cap = self.w_cap = None
+        self.table_breaches = []
 
 
 MON = Monitor()
@@ -626,6 +704,7 @@ def run_pipeline(sql: str, dialect: str, level: str, write: str | None = None, c
         res.update(ok=False, phase=res.get("running") or "?", exc="Timeout", frame="?", msg=f"still running after {WATCHDOG_S}s")
         return res
     finally:
+        res["table_breaches"] = MON.table_breaches[:3]
         MON.reset()
 
 
@@ -868,10 +947,17 @@ ELEMENT_TEMPLATES = [
 ]
 
 
-def gen_input(rng, gen: Gen, dialect_keywords=None):
+def gen_input(rng, gen: Gen, dialect_keywords=None, table_words=None):
     """returns (kind, sql)"""
     k = rng.random()
-    if k < 0.1:
+    if k < 0.1 and table_words:
+        # a key of one of the dialect's dispatch tables in a continuation its parser does not expect
+        w = rng.choice(table_words)
+        sql = (rng.choice(KW_CONTEXTS) + rng.choice(KW_CONTINUATIONS)).replace("{K}", w)
+        if rng.random() < 0.3:
+            sql = gen.select() + " " + w + rng.choice(KW_CONTINUATIONS).replace("{K}", w)
+        return "table-keyword", sql
+    if k < 0.2:
         # reserved words / punctuation in element position of every list-shaped construct (_parse_csv element parsers)
         tpl = rng.choice(ELEMENT_TEMPLATES)
         pool = SOUP if dialect_keywords is None or rng.random() < 0.6 else dialect_keywords
@@ -928,6 +1014,82 @@ def gen_input(rng, gen: Gen, dialect_keywords=None):
 
 
 _KW_CACHE: dict = {}
+
+
+_TK_CACHE: dict = {}
+
+KW_CONTEXTS = ["SELECT x {K}", "SELECT a FROM t WHERE x = 1 {K}", "SELECT a FROM t {K}", "SELECT * FROM a JOIN b ON a.x = b.x {K}",
+               "SELECT x, y {K}", "SELECT (x) {K}", "{K}", "SELECT f(x {K}", "CREATE TABLE t (a INT {K}", "SELECT a FROM (SELECT 1) AS s {K}"]
+KW_CONTINUATIONS = ["", " y", " (SELECT 1)", " NOT y", " LEFT JOIN c ON 1 = 1", " ,", " )", " = 1", " {K}", " FROM u", " (", " AND z"]
+
+
+def table_keywords(dialect) -> dict:
+    """{"specific": [...], "loop": [...], "all": [...]}: spellings of every key of every dispatch table / loop-driving token
+    set of this dialect's parser class, read from the live tables (so a new entry is covered automatically).
+    `specific` = keys of loop-driving tables that the dialect adds or overrides relative to the base parser."""
+    if dialect in _TK_CACHE:
+        return _TK_CACHE[dialect]
+    _, _, parser, tokens, _, _, _, Dialect, _ = sg()
+    d = Dialect.get_or_raise(dialect or None)
+    pc, base = d.parser_class, parser.Parser
+    spell: dict = {}
+    tk = d.tokenizer_class
+    for text, tt in list(getattr(tk, "SINGLE_TOKENS", {}).items()) + list(getattr(tk, "KEYWORDS", {}).items()):
+        if not text or "\n" in text:
+            continue
+        old = spell.get(tt)
+        # prefer alphabetic spellings, then short ones
+        if old is None or (text[0].isalpha(), -len(text)) > (old[0].isalpha(), -len(old)):
+            spell[tt] = text
+
+    def txt(k):
+        if isinstance(k, str):
+            return k
+        return spell.get(k)
+
+    def orig(dct, k):
+        for dd, kk, fn in MON.wrapped_tables:
+            if dd is dct and kk == k:
+                return fn
+        return dct.get(k)
+
+    allk, loop, specific = set(), set(), set()
+    for table in DISPATCH_TABLES:
+        dct = getattr(pc, table, None)
+        if not isinstance(dct, dict):
+            continue
+        bdct = getattr(base, table, {}) or {}
+        for k in dct:
+            t_ = txt(k)
+            if not t_:
+                continue
+            allk.add(t_)
+            if table in LOOP_TABLES:
+                loop.add(t_)
+                if pc is not base and (k not in bdct or orig(dct, k) is not orig(bdct, k)):
+                    specific.add(t_)
+    for name in LOOP_TOKEN_SETS:
+        st = getattr(pc, name, None)
+        bst = getattr(base, name, None) or ()
+        if st is None:
+            continue
+        for k in st:
+            t_ = txt(k)
+            if not t_:
+                continue
+            allk.add(t_)
+            loop.add(t_)
+            if pc is not base and k not in bst:
+                specific.add(t_)
+    _TK_CACHE[dialect] = {"specific": sorted(specific), "loop": sorted(loop), "all": sorted(allk)}
+    return _TK_CACHE[dialect]
+
+
+def keyword_sweep(dialect, words, n_ctx=None, n_cont=None):
+    for w in words:
+        for ctx in KW_CONTEXTS[:n_ctx]:
+            for cont in KW_CONTINUATIONS[:n_cont]:
+                yield (ctx + cont).replace("{K}", w)
 
 
 def element_words(dialect) -> list:
@@ -1104,7 +1266,7 @@ TOKMAP = ["L_PAREN", "R_PAREN", "COMMA", "VAR", "NUMBER", "SELECT", "FROM", "DOT
 
 def rand_prog(rng, depth=0, wf=False):
     """random combinator program (JSON shape shared with the Lean driver)"""
-    leafs = ["eps", "nothing", "tok", "tokSet", "peek", "pair", "anyTok", "fail"] + ([] if wf else ["advance"])
+    leafs = ["eps", "nothing", "tok", "tokSet", "peek", "pair", "anyTok", "fail", "textSeq", "textSeq", "restOfChunk"] + ([] if wf else ["advance"])
     if depth >= 4 or rng.random() < 0.3:
         k = rng.choice(leafs)
         if k in ("tok", "peek"):
@@ -1113,8 +1275,19 @@ def rand_prog(rng, depth=0, wf=False):
             return [k, sorted(set(rng.randrange(len(TOKMAP)) for _ in range(rng.randint(0, 3))))]
         if k == "pair":
             return [k, rng.randrange(len(TOKMAP)), rng.randrange(len(TOKMAP))]
+        if k == "textSeq":
+            return [k, [rng.randrange(9) for _ in range(rng.randint(0, 3))], rng.random() < 0.7]
         return [k]
-    k = rng.choice(["andThen", "both", "orElse", "attempt", "tryParse", "tryParse", "csv", "csv", "wrapped", "wrapped", "many"])
+    k = rng.choice(["andThen", "both", "orElse", "attempt", "tryParse", "tryParse", "csv", "csv", "wrapped", "wrapped", "many",
+                    "ifTok", "tableLoop", "tableLoop"])
+    if k == "ifTok":
+        return [k, sorted(set(rng.randrange(len(TOKMAP)) for _ in range(rng.randint(0, 3)))), rand_prog(rng, depth + 1, wf), rand_prog(rng, depth + 1, wf)]
+    if k == "tableLoop":
+        consume = rng.random() < 0.6
+        body = rand_prog(rng, depth + 1, wf)
+        if not consume and (wf or rng.random() < 0.8):
+            body = ["andThen", ["anyTok"], body] if rng.random() < 0.5 else ["anyTok"]
+        return [k, sorted(set(rng.randrange(len(TOKMAP)) for _ in range(rng.randint(1, 4)))), body, consume]
     if k in ("andThen", "both", "orElse"):
         return [k, rand_prog(rng, depth + 1, wf), rand_prog(rng, depth + 1, wf)]
     if k == "attempt":
@@ -1182,6 +1355,32 @@ def interp(psr, prog, fuel, TT):
         return psr._parse_csv(lambda: interp(psr, prog[1], fuel, TT), sep=TT[prog[2]])
     if k == "wrapped":
         return psr._parse_wrapped(lambda: interp(psr, prog[1], fuel, TT), optional=prog[2])
+    if k == "textSeq":
+        return psr._match_text_seq(*[TOKMAP[i] for i in prog[1]], advance=prog[2])
+    if k == "restOfChunk":
+        while psr._curr:
+            psr._advance()
+        return True
+    if k == "ifTok":
+        if psr._match_set({TT[i] for i in prog[1]}):
+            return interp(psr, prog[2], fuel, TT)
+        return interp(psr, prog[3], fuel, TT)
+    if k == "tableLoop":
+        keys = {TT[i] for i in prog[1]}
+        acc = False
+        n = 0
+        while True:
+            if n >= fuel:
+                raise Diverged()
+            n += 1
+            if psr._match_set(keys, advance=prog[3]):
+                x = interp(psr, prog[2], fuel, TT)
+                if not x:
+                    return acc
+                acc = True
+            else:
+                break
+        return acc
     if k == "many":
         items = []
         n = 0
@@ -1247,6 +1446,13 @@ def correspond_programs(chk: Check) -> list:
         (["tryParse", ["both", ["tok", 3], ["both", ["advance"], ["advance"]]], False], [3, 4], "WARN"),
         (["many", ["eps"]], [3], "RAISE"),
         (["attempt", ["andThen", ["tok", 3], ["tok", 4]]], [3, 3], "RAISE"),
+        (["textSeq", [3, 4, 5], True], [3, 4, 6], "RAISE"),
+        (["textSeq", [3, 4], False], [3, 4, 6], "WARN"),
+        (["tableLoop", [7], ["tok", 3], True], [7, 3, 7, 3, 7], "RAISE"),
+        (["tableLoop", [7], ["attempt", ["andThen", ["tok", 7], ["tok", 3]]], False], [7, 3, 7, 4], "IGNORE"),
+        (["tableLoop", [7], ["eps"], False], [7, 3], "RAISE"),
+        (["ifTok", [5], ["tok", 3], ["ifTok", [6], ["restOfChunk"], ["tok", 3]]], [6, 1, 1, 1], "RAISE"),
+        (["both", ["restOfChunk"], ["restOfChunk"]], [3, 3], "IMMEDIATE"),
         (["andThen", ["pair", 3, 4], ["anyTok"]], [3, 4], "RAISE"),
         (["csv", ["tryParse", ["andThen", ["tok", 3], ["andThen", ["tok", 3], ["fail"]]], False], 2], [3, 3, 2, 3], "WARN"),
     ]
@@ -1310,7 +1516,7 @@ def correspond_activations(chk: Check) -> list:
     for ii in range(n_inputs):
         d = rng.choice(dialects)
         lvl = rng.choice(LEVELS)
-        kind, sql = gen_input(rng, gen, dialect_keywords(d))
+        kind, sql = gen_input(rng, gen, dialect_keywords(d), table_keywords(d)["all"])
         if time.time() - t_start > chk.pick(45, 600) or chk.corr_disagreements >= 5:
             chk.note(f"activation monitoring stopped early after {ii} inputs")
             break
@@ -1401,6 +1607,10 @@ def correspond_activations(chk: Check) -> list:
             outcome = "recursion"
         except Exception:  # noqa
             outcome = "internal"
+        for b in MON.table_breaches[:2]:
+            chk.correspondence_broken("dispatch-table entry returned a truthy result without progress (hypothesis of table_loop_terminates)",
+                                      {"sql": sql, "dialect": d, "level": lvl, **b})
+            bad_inputs.append((sql, d, lvl))
         acts = MON.acts
         tokmap = MON._tokens_by_id
         MON.acts = None
@@ -1493,6 +1703,7 @@ def search(chk: Check, hints: list, budget_s: float) -> None:
     dialects = all_dialects()
     t0 = time.time()
     tried = failing = 0
+    breaches: dict = {}
     maxr = {"parse_lin": 0.0, "parse_quad": 0.0, "tok": 0.0, "gen": 0.0, "work": 0.0}
     corpus = []
     cdir = os.path.join(os.path.dirname(os.path.dirname(os.path.dirname(os.path.abspath(__file__)))), "corpus", "C05")
@@ -1527,6 +1738,11 @@ def search(chk: Check, hints: list, budget_s: float) -> None:
         chk.count("level:" + lvl)
         chk.count("verdict:" + ("ok" if v["ok"] else f"{v['phase']}-{v['exc']}"))
         chk.case(("s", sql, d, lvl, write), nontrivial=n > 2)
+        for b in v.get("table_breaches") or []:
+            breaches[(b["table"], b["key"], b["parser"])] = breaches.get((b["table"], b["key"], b["parser"]), 0) + 1
+            if breaches[(b["table"], b["key"], b["parser"])] == 1:
+                chk.correspondence_broken("dispatch-table entry returned a truthy result without progress (hypothesis of table_loop_terminates)",
+                                          {"sql": sql, "dialect": d, "level": lvl, **b})
         if not v["ok"]:
             failing += 1
             consider(chk, sql, d, lvl, write, v)
@@ -1542,13 +1758,28 @@ def search(chk: Check, hints: list, budget_s: float) -> None:
             if len(chk.violations) >= 8:
                 break
             one(sql, d, LEVELS[1 + (i % 3)], None, "element-sweep")
+    # deterministic sweep: every key that a dialect adds to / overrides in a loop-driving dispatch table (and, for the base
+    # parser, every such key) after each left context, followed by each "wrong" continuation
+    n_sweep = 0
+    for d in dialects:
+        tkw = table_keywords(d)
+        words = tkw["loop"] if not d else tkw["specific"]
+        if not chk.quick:
+            words = tkw["all"] if not d else sorted(set(tkw["specific"]) | set(rng.sample(tkw["all"], min(25, len(tkw["all"])))))
+        shape = (None, None) if not chk.quick else ((5, 6) if not d else (None, 7))
+        for i, sql in enumerate(keyword_sweep(d, words, *shape)):
+            if len(chk.violations) >= 8 or time.time() - t0 > budget_s:
+                break
+            one(sql, d, LEVELS[i % 4], None, "keyword-sweep")
+            n_sweep += 1
+    chk.cov["keyword_sweep_inputs"] = n_sweep
     # a fixed number of inputs per tier (deterministic for a given VERIF_SEED), with the time budget as a safety cap
-    n_inputs = int(os.environ.get("C05_INPUTS", "0")) or (chk.pick(2400, 70000) * (2 if chk.broken else 1))
+    n_inputs = int(os.environ.get("C05_INPUTS", "0")) or (chk.pick(1800, 70000) * (2 if chk.broken else 1))
     for _ in range(n_inputs):
         if time.time() - t0 > budget_s or len(chk.violations) >= int(os.environ.get("C05_MAX_VIOLATIONS", "8")):
             break
         d = rng.choice(dialects)
-        kind, sql = gen_input(rng, gen, dialect_keywords(d))
+        kind, sql = gen_input(rng, gen, dialect_keywords(d), table_keywords(d)["all"])
         write = rng.choice(dialects) if rng.random() < 0.3 else None
         lv = LEVELS if rng.random() < 0.25 else [rng.choice(LEVELS)]
         for lvl in lv:
